@@ -3,8 +3,9 @@
 Random histories of calls (valid calls of every family, calls failing at parse / solve / semantic
 check / run time, solve_* calls, nested 'with backend' blocks also left by exception, confusable
 argument groups placed adjacently) run in one long-lived process; the outcome of every call is
-compared with the outcome of the same call in the same 'with' nesting in a pristine interpreter
-(forked from a zygote that never made an einx call). Secondary monitors after every call: tracer
+compared with the outcome of the same call in the same 'with' nesting in a pristine einx (a side
+process that re-imports einx for every query; audited against children forked from a zygote that
+never made an einx call). Secondary monitors after every call: tracer
 dependency stack empty, registry use-stack equals the harness's own nesting.
 """
 import hashlib
@@ -21,23 +22,74 @@ RULE = (
     "keepdims True/1, 0-d tensor as ndarray/python scalar/numpy scalar, adapter option 2/2.0) in nestings {none, with numpy.einsum, with numpy.numpylike}; each outcome compared with the "
     "pristine-process outcome; distinct by (call, nesting, position class hit/miss); non-trivial = calls that were cache hits or followed a failing call"
 )
-ASSUMPTIONS = ["outcome = exception class | dtype, shape, bytes of every returned tensor | graph=True text with object addresses normalised", "the pristine oracle runs with the same PYTHONHASHSEED"]
+ASSUMPTIONS = ["outcome = exception class | dtype, shape, bytes of every returned tensor | graph=True text up to variable naming (identifiers alpha-renamed in order of first appearance, addresses masked)", "the pristine oracle runs with the same PYTHONHASHSEED", "pristine = a process forked before any einx call in which all einx modules are dropped and imported again for every query, with freshly built user callables (sympy's own caches stay warm); 8 % of the queries are also answered by a fork-per-query child that never ran einx, and the two must agree"]
 TIMEOUT = {"quick": 1500, "thorough": 9000}
 BUDGET_S = {"quick": 240, "thorough": 1500}  # per shard: stop issuing new calls afterwards (what was observed still counts)
-WORKERS = 4  # fork + copy-on-write of the pristine children does not scale to 16 concurrent workers in this sandbox
+WORKERS = 8  # fork + copy-on-write is slow in this sandbox (~4 s per forked child under load); the re-import server needs one fork per shard only
 
 
 def shards(tier, seed, scale):
-    n = 4 if tier == "quick" else 16
-    return [{"histories": int((4 if tier == "quick" else 16) * scale) or 1, "pool": 130 if tier == "quick" else 200, "maxlen": 3} for _ in range(n)]
+    n = 8 if tier == "quick" else 16
+    return [{"histories": int((6 if tier == "quick" else 60) * scale) or 1, "pool": 130 if tier == "quick" else 200, "maxlen": 3} for _ in range(n)]
 
 
 _ADDR = re.compile(r"0x[0-9a-fA-F]+")
 
 
+def alpha_normalise(text):
+    """Generated code up to variable naming: every identifier bound in the text (variables, parameters, function names, import aliases) is renamed
+    in order of first appearance; comments vanish. Text that is not Python is returned with addresses masked only."""
+    import ast
+    text = _ADDR.sub("0x", text)
+    try:
+        tree = ast.parse(text)
+    except SyntaxError:
+        return text
+    bound = {}
+
+    def name_for(n):
+        return bound.setdefault(n, f"v{len(bound)}")
+
+    class Collect(ast.NodeVisitor):
+        def visit_FunctionDef(self, node):
+            name_for(node.name)
+            for a in node.args.posonlyargs + node.args.args + node.args.kwonlyargs:
+                name_for(a.arg)
+            self.generic_visit(node)
+
+        def visit_Name(self, node):
+            if isinstance(node.ctx, ast.Store):
+                name_for(node.id)
+
+        def visit_alias(self, node):
+            name_for(node.asname or node.name.split(".")[0])
+
+    Collect().visit(tree)
+
+    class Rename(ast.NodeTransformer):
+        def visit_FunctionDef(self, node):
+            node.name = bound.get(node.name, node.name)
+            for a in node.args.posonlyargs + node.args.args + node.args.kwonlyargs:
+                a.arg = bound.get(a.arg, a.arg)
+            self.generic_visit(node)
+            return node
+
+        def visit_Name(self, node):
+            node.id = bound.get(node.id, node.id)
+            return node
+
+        def visit_alias(self, node):
+            key = node.asname or node.name.split(".")[0]
+            if key in bound:
+                node.asname = bound[key]
+            return node
+
+    return ast.unparse(Rename().visit(tree))
+
+
 def digest(v):
     if isinstance(v, str):
-        return "S:" + hashlib.sha1(_ADDR.sub("0x", v).encode()).hexdigest()[:12]
+        return "S:" + hashlib.sha1(alpha_normalise(v).encode()).hexdigest()[:12]
     if isinstance(v, (tuple, list)):
         return "T(" + ",".join(digest(i) for i in v) + ")"
     if isinstance(v, dict):
@@ -131,6 +183,21 @@ def build_pool(rng, nprng, n, maxlen):
     return pool
 
 
+def make_adapters(einx):
+    def adapted_fn(x, axis, *, p=1):
+        if p == "boom":
+            raise RuntimeError("user function failed")
+        return np.sum(x, axis=axis) * p
+
+    def plain_ew(a, b):
+        return a + b
+
+    def plain_red(a, axis):
+        return np.sum(a, axis=axis)
+
+    return {"reduce": einx.numpy.adapt_numpylike_reduce(adapted_fn), "ew": einx.numpy.adapt_numpylike_elementwise(plain_ew), "red2": einx.numpy.adapt_numpylike_reduce(plain_red)}
+
+
 def perform(pool, adapters, idx, ctx, escape=False):
     """Execute pool[idx] inside the nesting ctx (list of backend names) -> digest string.
     escape=True: an exception raised by the call leaves the with-blocks (it is caught outside them)."""
@@ -169,19 +236,16 @@ def run(spec, out):
     nprng = np.random.default_rng(spec["seed"])
     pool = build_pool(rng, nprng, spec["pool"], spec["maxlen"])
 
-    def adapted_fn(x, axis, *, p=1):
-        if p == "boom":
-            raise RuntimeError("user function failed")
-        return np.sum(x, axis=axis) * p
+    adapters = make_adapters(einx)
+    zy = Zygote(lambda q: perform(pool, adapters, q["i"], q["ctx"], q.get("escape", False)))  # fork per query: the reference oracle, slow here
 
-    def plain_ew(a, b):
-        return a + b
+    def perform_fresh(q):
+        import einx as fresh_einx  # re-imported by the server: every module-level state of einx is new
+        p2 = build_pool(random.Random(spec["seed"]), np.random.default_rng(spec["seed"]), spec["pool"], spec["maxlen"])  # fresh user callables
+        return perform(p2, make_adapters(fresh_einx), q["i"], q["ctx"], q.get("escape", False))
 
-    def plain_red(a, axis):
-        return np.sum(a, axis=axis)
-
-    adapters = {"reduce": einx.numpy.adapt_numpylike_reduce(adapted_fn), "ew": einx.numpy.adapt_numpylike_elementwise(plain_ew), "red2": einx.numpy.adapt_numpylike_reduce(plain_red)}
-    zy = Zygote(lambda q: perform(pool, adapters, q["i"], q["ctx"], q.get("escape", False)))
+    from ..fresh import ReimportServer
+    srv = ReimportServer(perform_fresh)
 
     def adapt_unrelated(name):
         """History event: some unrelated function with a keyword-only option called `name` is adapted (and used once)."""
@@ -217,7 +281,7 @@ def run(spec, out):
                 if rng.random() < 0.05:
                     adapt_unrelated(rng.choice(["k", "n", "q"]))
                     out.count("history_event_adapt_unrelated")
-                escape = rng.random() < 0.5
+                escape = rng.random() < 0.5 and bool(ctx)  # (without an active with-block the two variants are the same call)
                 # pick a call; with some probability a neighbour of the previous one (confusable groups are adjacent)
                 if step and rng.random() < 0.35:
                     idx = max(0, min(len(pool) - 1, idx + rng.choice([-2, -1, 1, 2])))
@@ -225,13 +289,25 @@ def run(spec, out):
                     idx = rng.randrange(len(pool))
                 item = pool[idx]
                 hooks.window()
-                zy.submit({"i": idx, "ctx": ctx, "escape": escape})  # the pristine child runs while the in-history call does
+                q = {"i": idx, "ctx": ctx, "escape": escape}
+                srv.submit(q)  # the pristine evaluation runs while the in-history call does
+                audit = rng.random() < 0.08
+                if audit:
+                    zy.submit(q)
                 got = perform(pool, adapters, idx, ctx, escape)
                 miss = bool(hooks.captured)
                 out.evaluation()
                 out.count("cache_miss" if miss else "cache_hit_or_no_compile")
                 out.count(f"label:{item['label']}")
-                exp = zy.result()
+                exp = srv.result()
+                if audit:
+                    ref = zy.result()
+                    if "ok" in ref and "ok" in exp:
+                        out.count("oracle_audits")
+                        if ref["ok"] != exp["ok"]:
+                            out.count("oracle_disagreements")
+                            out.info("oracle_disagreement", {"call": item["label"], "desc": item["desc"], "fork": ref["ok"], "reimport": exp["ok"]})
+                            exp = ref  # the fork-per-query oracle is the reference
                 if escape and ctx and got.startswith("E:"):
                     out.count("with_block_left_by_exception")
                 wit = {"label": item["label"], "fn": item["fname"] or "adapted", "desc": item["desc"], "kwargs": {k: repr(v)[:40] for k, v in item["kwargs"].items()}, "tensors": [type(t).__name__ + str(getattr(t, "shape", "")) + str(getattr(t, "dtype", "")) for t in item["tensors"]],
@@ -263,6 +339,7 @@ def run(spec, out):
             if h < 1:
                 out.sample({"history_length": length, "pool_size": len(pool), "example_call": {"fn": pool[0]["fname"], "desc": pool[0]["desc"]}})
     finally:
+        srv.close()
         zy.close()
 
 
@@ -279,6 +356,10 @@ def finalize(agg, tier, seed):
         n = sum(v for k, v in c.items() if k.startswith("label:" + prefix))
         if n < minimum:
             agg.inconclusive.append(f"only {n} calls of the '{prefix}*' groups observed")
+    if c.get("oracle_disagreements", 0) > 0:
+        agg.inconclusive.append(f"the two pristine oracles disagreed on {c.get('oracle_disagreements')} of {c.get('oracle_audits')} audited queries (state outside einx's modules?)")
+    if c.get("oracle_audits", 0) < 5:
+        agg.inconclusive.append(f"only {c.get('oracle_audits', 0)} queries were audited against the fork-per-query oracle")
     if c.get("pristine_oracle_unavailable", 0) > 0.05 * max(1, c.get("evaluations", 0)):
         agg.inconclusive.append(f"pristine oracle unavailable for {c.get('pristine_oracle_unavailable')} calls")
     return {"labels": {k[6:]: int(v) for k, v in c.items() if k.startswith("label:")}}
